@@ -1,7 +1,10 @@
 -------------------------- MODULE PipelineTrace --------------------------
 (* Trace judge for C03 / C04.  Reads a JSON list of traces recorded from real falcon applications
    (engine/pipeline_harness.py), makes every trace an initial state and replays it with the actions
-   of Pipeline: the logged event supplies what the called code did (return / complete / raise cls),
+   of Pipeline.  A trace is a session of one application object: [shape, indep, target, nb, na,
+   reg: all custom registrations in order, reqs: <<[nregs: registrations made before this request,
+   ev: calls, final: response]>>]; between requests the judge takes NextRequest and the AddHandler
+   steps the session made.  Within a request: the logged event supplies what the called code did (return / complete / raise cls),
    the specification supplies which call must come next, with which arguments, which handler is
    chosen and what the response finally is.  Steps the application cannot see (skipped components,
    the framework's own not-found responder and default handlers, successful rendering) are taken
@@ -17,7 +20,7 @@
      P4:stale      a body set before an exception was raised was sent
      P4:body       final body is not the one the last handler / call site defined
      P4:ownheaders the rendered error's own headers are missing
-     P4:vary       an error was rendered without Vary: Accept
+     P4:vary       Vary lacks Accept after an error was rendered, or lacks the error's own / an earlier token
      D:resource D:renderfallback D:headers D:vary   model detail the property does not demand
                    (renderfallback: what is sent when rendering the error handler's response fails too)
      H:*           the harness logged something the model has no action for (machinery) *)
@@ -27,25 +30,34 @@ Traces    == JsonDeserialize(IOEnv.TRACE_FILE)
 ClassFile == JsonDeserialize(IOEnv.CLASSES_FILE)
 TMro      == ClassFile.mro
 TStatus   == ClassFile.status
+TOwnVary  == ClassFile.vary
 Empty     == {}
 
-VARIABLES tid, l, st, verdict, dnote
-tvars == <<tid, l, st, verdict, dnote>>
+VARIABLES tid, r, l, st, verdict, dnote
+tvars == <<tid, r, l, st, verdict, dnote>>
 
 T  == Traces[tid]
-Ev == T.ev[l]
-HaveEv == l <= Len(T.ev)
+Rq == T.reqs[r]
+Ev == Rq.ev[l]
+HaveEv == l <= Len(Rq.ev)
 SetOf(s) == {s[j] : j \in 1..Len(s)}
 
-TInit == /\ tid \in 1..Len(Traces) /\ l = 1 /\ st = "run" /\ verdict = "ok" /\ dnote = "ok"
+TInit == /\ tid \in 1..Len(Traces) /\ r = 1 /\ l = 1 /\ st = "run" /\ verdict = "ok" /\ dnote = "ok"
          /\ shape = [c \in 1..Len(Traces[tid].shape) |-> SetOf(Traces[tid].shape[c])]
          /\ indep = Traces[tid].indep /\ target = Traces[tid].target
          /\ nb = Traces[tid].nb /\ na = Traces[tid].na
-         /\ reg = Defaults \o Traces[tid].reg
-         /\ phase = "req" /\ i = 1 /\ complete = FALSE /\ succeeded = FALSE /\ hasres = FALSE
+         /\ reg = Defaults /\ nreq = 1
+         /\ phase = "setup" /\ i = 1 /\ complete = FALSE /\ succeeded = FALSE /\ hasres = FALSE
          /\ dep = <<>> /\ left = <<>> /\ pend = NoPend
          /\ calls = <<>> /\ faults = 0
-         /\ status = 200 /\ body = NoBody /\ hdrs = {} /\ vary = FALSE /\ escaped = FALSE
+         /\ status = 200 /\ body = NoBody /\ hdrs = {} /\ vary = {} /\ escaped = FALSE
+
+(* the registrations the session made before the current request, then the request starts *)
+Setup ==
+    /\ phase = "setup"
+    /\ LET k == Len(reg) - Len(Defaults) IN
+         IF k < Rq.nregs THEN AddHandler(T.reg[k + 1].cls, T.reg[k + 1].beh) ELSE Start
+    /\ UNCHANGED tvars
 
 (* the application-visible call the model stands at, if any *)
 MSite == CASE phase = "req" /\ i <= N /\ "req" \in shape[i] /\ ~complete   -> <<"req", i>>
@@ -60,13 +72,13 @@ MSite == CASE phase = "req" /\ i <= N /\ "req" \in shape[i] /\ ~complete   -> <<
 RenderEvent == phase = "render" /\ HaveEv /\ Ev.site = "render"
 
 Silent ==
-    /\ MSite[1] = "" /\ ~RenderEvent /\ phase # "end"
+    /\ MSite[1] = "" /\ ~RenderEvent /\ phase \notin {"end", "setup"}
     /\ \/ ReqSkip \/ ReqDone \/ Route \/ RsrcSkip \/ RsrcDone \/ BeforeDone \/ NotFound \/ AfterDone \/ RespDone
        \/ (phase = "handle" /\ HandleCall)
        \/ RenderCall("ret", "")
     /\ UNCHANGED tvars
 
-Fail(v) == /\ verdict' = v /\ st' = "fin" /\ UNCHANGED <<vars, tid, l, dnote>>
+Fail(v) == /\ verdict' = v /\ st' = "fin" /\ UNCHANGED <<vars, tid, r, l, dnote>>
 
 ActsAt(site) == IF site \in {"req", "rsrc"} THEN {"ret", "complete", "raise"} ELSE {"ret", "raise"}
 ExpRes == IF MSite[1] \in {"rsrc", "before", "after", "responder"} THEN TRUE
@@ -87,18 +99,20 @@ Consume ==
                \/ (phase = "handle" /\ HandleCall)
             /\ l' = l + 1
             /\ dnote' = (IF dnote = "ok" /\ MSite[1] # "handler" /\ Ev.res # ExpRes THEN "D:resource" ELSE dnote)
-            /\ UNCHANGED <<tid, st, verdict>>
+            /\ UNCHANGED <<tid, r, st, verdict>>
 
 RenderFails ==
     /\ RenderEvent
     /\ IF body.k \notin {"mark", "hbad"} THEN Fail("P4:body")   \* the implementation rendered a body the model says is gone
        ELSE IF Ev.cls \notin DOMAIN TMro THEN Fail("H:cls")
-       ELSE (RenderCall("raise", Ev.cls) \/ RenderBad(Ev.cls)) /\ l' = l + 1 /\ UNCHANGED <<tid, st, verdict, dnote>>
+       ELSE (RenderCall("raise", Ev.cls) \/ RenderBad(Ev.cls)) /\ l' = l + 1 /\ UNCHANGED <<tid, r, st, verdict, dnote>>
 
 RenderMissing ==        \* the model holds an unserialisable body, the implementation rendered without failing
     /\ phase = "render" /\ body.k = "hbad" /\ ~RenderEvent /\ Fail("P4:body")
 
-F == T.final
+F == Rq.final
+Tok(x) == IF x = 0 THEN 0 ELSE IF x > 0 THEN ObsIdx(x) ELSE -ObsIdx(-x)
+ObsVary == {Tok(x) : x \in vary}
 ObsHdrs == {ObsIdx(x) : x \in hdrs} \ {0}
 ObsBody == IF body.k \in {"mark", "err", "stext", "hset", "hbad"} THEN [k |-> body.k, id |-> ObsIdx(body.id)] ELSE body
 Fallback == pend.back = "fallback"
@@ -109,27 +123,30 @@ FinalP ==
     ELSE IF ~Fallback /\ F.body # ObsBody THEN (IF F.body.k = "mark" THEN "P4:stale" ELSE "P4:body")
     ELSE IF ~Fallback /\ body.k \in {"err", "stext"} /\ ObsIdx(body.id) # 0 /\ ObsIdx(body.id) \notin SetOf(F.hdrs)
            THEN "P4:ownheaders"
-    ELSE IF ~Fallback /\ body.k \in {"err", "e500"} /\ ~F.vary THEN "P4:vary"
+    ELSE IF ~(ObsVary \subseteq SetOf(F.vary)) THEN "P4:vary"
     ELSE "ok"
 FinalD ==
     IF escaped \/ F.escaped THEN "ok"
     ELSE IF Fallback /\ F.body # ObsBody THEN "D:renderfallback"
     ELSE IF SetOf(F.hdrs) # ObsHdrs THEN "D:headers"
-    ELSE IF F.vary # vary THEN "D:vary"
+    ELSE IF SetOf(F.vary) # ObsVary THEN "D:vary"
     ELSE "ok"
 
 Finish ==
     /\ phase = "end" /\ st = "run"
     /\ IF HaveEv THEN Fail("P3:extra")
-       ELSE /\ verdict' = FinalP /\ dnote' = (IF dnote = "ok" THEN FinalD ELSE dnote) /\ st' = "fin"
-            /\ UNCHANGED <<vars, tid, l>>
+       ELSE IF FinalP # "ok" THEN Fail(FinalP)
+       ELSE /\ dnote' = (IF dnote = "ok" THEN FinalD ELSE dnote)
+            /\ IF r < Len(T.reqs)
+                 THEN NextRequest /\ r' = r + 1 /\ l' = 1 /\ UNCHANGED <<tid, st, verdict>>
+                 ELSE st' = "fin" /\ UNCHANGED <<vars, tid, r, l, verdict>>
 
 Done ==
     /\ st = "fin"
-    /\ PrintT(<<"VERDICT", tid, (IF verdict = "ok" THEN dnote ELSE verdict), l - 1>>)
-    /\ st' = "done" /\ UNCHANGED <<vars, tid, l, verdict, dnote>>
+    /\ PrintT(<<"VERDICT", tid, (IF verdict = "ok" THEN dnote ELSE verdict), (r - 1) * 1000 + l - 1>>)
+    /\ st' = "done" /\ UNCHANGED <<vars, tid, r, l, verdict, dnote>>
 
-TNext == \/ (st = "run" /\ (Silent \/ Consume \/ RenderFails \/ RenderMissing \/ Finish))
+TNext == \/ (st = "run" /\ (Setup \/ Silent \/ Consume \/ RenderFails \/ RenderMissing \/ Finish))
          \/ Done
 TSpec == TInit /\ [][TNext]_<<vars, tvars>>
 Sound == st = "run" => verdict = "ok"
